@@ -63,6 +63,13 @@ def probe_cases():
         {"t": 1, "act": "start", "op": {"k": "eq", "a": 2, "b": 1}})}
     se = {"initbuf": INIT, "threads": 2, "steps": steps(
         {"t": 1, "act": "start", "op": {"k": "seq", "a": 2, "b": 1}})}
+    # the same on the second thread, whose handles lie in the opposite order in memory
+    e2 = {"initbuf": INIT, "threads": 2, "steps": steps(
+        {"t": 2, "act": "start", "op": {"k": "eq", "a": 2, "b": 1}})}
+    se2 = {"initbuf": INIT, "threads": 2, "steps": steps(
+        {"t": 2, "act": "start", "op": {"k": "seq", "a": 1, "b": 2}})}
+    c3 = {"initbuf": INIT, "threads": 2, "steps": steps(
+        {"t": 2, "act": "start", "op": {"k": "concat", "a": 2, "b": 1}})}
     c = {"initbuf": INIT, "threads": 2, "steps": steps(
         {"t": 1, "act": "start", "op": {"k": "concat", "a": 1, "b": 2}},
         {"t": 1, "act": "step"},                       # first critical section done
@@ -73,7 +80,8 @@ def probe_cases():
         {"t": 1, "act": "start", "op": {"k": "concat", "a": 2, "b": 1}})}
     sc = json.loads(json.dumps(c))
     sc["steps"][0]["op"]["k"] = "sconcat"
-    return {"get": g, "sget": sg, "eq": e, "seq": se, "concat": c, "concat_order": c2, "sconcat": sc}
+    return {"get": g, "sget": sg, "eq": e, "seq": se, "concat": c, "concat_order": c2, "sconcat": sc,
+            "eq_t2": e2, "seq_t2": se2, "concat_order_t2": c3}
 
 
 def lock_probes(verd, variant):
@@ -140,7 +148,7 @@ def detect_variant(verd):
         if not parked_clone(out[n], 1):
             raise vlib.ToolError("probe %s: get did not reach the element clone pausing point: %s" % (n, out[n]))
         info[n + "_holds_lock_while_cloning"] = blocked(out[n], 3)
-    for n in ("eq", "seq"):
+    for n in ("eq", "seq", "eq_t2", "seq_t2", "concat_order_t2"):
         p = out[n][0].get("parked") or {}
         if p.get("k") != "acquire":
             raise vlib.ToolError("probe %s: == did not stop before a lock acquisition: %s" % (n, out[n]))
@@ -155,10 +163,10 @@ def detect_variant(verd):
     variant = {
         "get": info["get_holds_lock_while_cloning"],
         "sget": info["sget_holds_lock_while_cloning"],
-        "eq": info["eq_first_lock"] == 1,
-        "seq": info["seq_first_lock"] == 1,
+        "eq": info["eq_first_lock"] == 1 and info["eq_t2_first_lock"] == 1,
+        "seq": info["seq_first_lock"] == 1 and info["seq_t2_first_lock"] == 1,
         "concat": info["concat_holds_first_lock"] and info["sconcat_holds_first_lock"]
-                  and info["concat_first_lock_for_(2,1)"] == 1,
+                  and info["concat_first_lock_for_(2,1)"] == 1 and info["concat_order_t2_first_lock"] == 1,
     }
     info["rust_and_script_paths_agree"] = rust_script_agree
     return variant, info
